@@ -174,6 +174,11 @@ class MolGen:
             bond_type=self.bond_descriptors[self_bond_idx].bond_type,
         )
 
+        bonded_atoms = (
+            self.bond_descriptors[self_bond_idx].atom_bonding_to,
+            other_bond_descriptors[other_bond_idx].atom_bonding_to,
+        )
+
         # Remove bond descriptors from list, as they have reacted now.
         del self.bond_descriptors[self_bond_idx]
         del other_bond_descriptors[other_bond_idx]
@@ -181,6 +186,12 @@ class MolGen:
         self.bond_descriptors += other_bond_descriptors
 
         self._mol = new_mol.GetMol()
+        # RDKit reads the open valence of a bracket atom ([C@H], [Si]) in a fragment as radical electrons:
+        # the new bond pairs them.
+        bond_order = int(self._mol.GetBondBetweenAtoms(*bonded_atoms).GetBondTypeAsDouble())
+        for atom_idx in bonded_atoms:
+            atom = self._mol.GetAtomWithIdx(atom_idx)
+            atom.SetNumRadicalElectrons(max(atom.GetNumRadicalElectrons() - bond_order, 0))
         return self
 
     @property
